@@ -2,6 +2,7 @@ package transport
 
 import (
 	"bytes"
+	"errors"
 	"fmt"
 	"io"
 	"mime"
@@ -47,6 +48,10 @@ func getRequestBody(r *http.Request) (string, error) {
 	return string(body), nil
 }
 
+// errNullBody is reported when a request body (or websocket start payload) is the JSON
+// value null, which decodes into a nil *graphql.RawParams without a decoding error.
+var errNullBody = errors.New("request must be a JSON object, not null")
+
 var pool = sync.Pool{
 	New: func() any {
 		return &graphql.RawParams{}
@@ -91,7 +96,11 @@ func (h POST) Do(w http.ResponseWriter, r *http.Request, exec graphql.GraphExecu
 	}
 
 	bodyReader := bytes.NewReader(bodyBytes)
-	if err := jsonDecode(bodyReader, &params); err != nil {
+	err = jsonDecode(bodyReader, &params)
+	if err == nil && params == nil {
+		params, err = &graphql.RawParams{}, errNullBody
+	}
+	if err != nil {
 		w.WriteHeader(http.StatusBadRequest)
 		gqlErr := gqlerror.Errorf(
 			"json request body could not be decoded: %+v body:%s",
